@@ -8,6 +8,7 @@ import (
 	"encoding/json"
 	"fmt"
 	"io"
+	"log"
 	"net/http"
 	"sort"
 	"strconv"
@@ -81,6 +82,7 @@ type World struct {
 	SinkMode string // "ok" | "500" | "error"
 	SinkDelayNs int64
 	panics   []string
+	lc       *logCapture
 	seed     uint64
 	randCtr  uint64
 	randMu   sync.Mutex
@@ -178,6 +180,9 @@ func Boot(sc *Scenario) (*World, error) {
 	logger.Log.SetOutput(io.Discard)
 
 	w := &World{seed: sc.Seed, SinkMode: rc.SinkMode, SinkDelayNs: rc.SinkDelayNs}
+	w.lc = &logCapture{}
+	log.SetOutput(w.lc)
+	log.SetFlags(0)
 	curWorld.Store(w)
 	hookOnce.Do(func() { logger.Log.AddHook(panicHook{}) })
 	if w.SinkMode == "" {
